@@ -9,7 +9,6 @@ import (
 	"crypto/sha256"
 	"encoding/hex"
 	"fmt"
-	"io"
 	"os"
 	"path/filepath"
 	"sort"
@@ -24,6 +23,7 @@ import (
 	"github.com/pgavlin/dawn/util"
 	starlark_json "go.starlark.net/lib/json"
 	"go.starlark.net/starlark"
+	"go.starlark.net/starlarkstruct"
 	"verif.local/sim/simcheck"
 	"verif.local/sim/simrt"
 )
@@ -64,7 +64,8 @@ type world struct {
 	keyOf      func(label string) string
 	ctx        *simcheck.Ctx
 	tornOut    bool
-	running    int // bodies between start and end right now
+	failLate   bool // failing bodies write their outputs first
+	running    int  // bodies between start and end right now
 	maxRunning int
 }
 
@@ -214,6 +215,7 @@ func (w *world) simBody(thread *starlark.Thread, fn *starlark.Builtin, args star
 	if spec.Text != "" {
 		stdout, _ := util.Stdio(thread)
 		text := spec.Text
+		var buf []byte // one buffer reused for every write, as io.Copy and os/exec do
 		for len(text) > 0 {
 			n := len(text)
 			if w.chunkT != nil {
@@ -224,17 +226,25 @@ func (w *world) simBody(thread *starlark.Thread, fn *starlark.Builtin, args star
 				case 2:
 					n = 1 + w.chunkT.Intn(len(text))
 				case 3:
-					io.WriteString(stdout, "") // an empty write
+					stdout.Write(buf[:0]) // an empty write
 					n = 1 + w.chunkT.Intn(len(text))
 				}
 			}
-			io.WriteString(stdout, text[:n])
+			buf = append(buf[:0], text[:n]...)
+			stdout.Write(buf)
 			text = text[n:]
 			s.Yield("body.print", lbl)
 		}
 		w.written[lbl] += spec.Text
 	}
 	if w.failing[lbl] {
+		if w.failLate {
+			// the command fails after it has (half) written its outputs
+			for _, out := range spec.Outs {
+				os.MkdirAll(filepath.Dir(out), 0755)
+				os.WriteFile(out, []byte("half-written by a failing body\n"), 0644)
+			}
+		}
 		w.log = append(w.log, execRec{Seq: w.nextSeq(), Build: w.op, Label: lbl, Kind: "fail"})
 		return nil, fmt.Errorf("body of %s failed (injected)", lbl)
 	}
@@ -265,6 +275,7 @@ func (w *world) builtins() starlark.StringDict {
 		"sim_body":  starlark.NewBuiltin("sim_body", w.simBody),
 		"sim_yield": starlark.NewBuiltin("sim_yield", w.simYield),
 		"json":      starlark_json.Module,
+		"struct":    starlark.NewBuiltin("struct", starlarkstruct.Make),
 		"os":        starlark_os.Module,
 		"sh":        starlark_sh.Module,
 	}
@@ -281,6 +292,7 @@ type procCfg struct {
 	TornFrac    int
 	IOErrAt     map[int]int
 	IOErrPM     int
+	IOErrFrom   int // from this I/O operation on, creating and writing fail with ENOSPC
 	CondAny     bool
 	ReadDirPerm bool
 	SplitWrites bool
@@ -304,7 +316,7 @@ func (w *world) newSim(name string, pc procCfg, stepHook func(step int, kind, de
 	cfg := simrt.Config{
 		Sched: ts.Get(name + ".sched"), Misc: ts.Get(name + ".misc"), Fault: ts.Get(name + ".fault"),
 		Strategy: pc.Strategy, StickyNum: pc.Sticky, PCTDepth: pc.PCTDepth, PCTEst: 600, NumCPU: pc.NumCPU,
-		CrashAt: pc.CrashAt, TornFrac: pc.TornFrac, IOErrAt: pc.IOErrAt, IOErrPerMille: pc.IOErrPM, CondSignalAny: pc.CondAny,
+		CrashAt: pc.CrashAt, TornFrac: pc.TornFrac, IOErrAt: pc.IOErrAt, IOErrPerMille: pc.IOErrPM, IOErrFrom: pc.IOErrFrom, CondSignalAny: pc.CondAny,
 		ReadDirPerm: pc.ReadDirPerm, SplitWrites: pc.SplitWrites, MapOrderFixed: pc.MapFixed,
 		TempDir: filepath.Join(w.home, "tmp"), MaxSteps: pc.MaxSteps,
 	}
